@@ -57,7 +57,7 @@ def draw_pars(rnd):
 class C01(object):
     id = "C01"
     engine = "simomp"
-    tiers = {"quick": {"runs": 2500, "budget_s": 55, "selftest_every": 50, "fresh_selftest": 6},
+    tiers = {"quick": {"runs": 5000, "budget_s": 55, "selftest_every": 50, "fresh_selftest": 6},
              "thorough": {"runs": 600000, "budget_s": 800, "selftest_every": 300, "fresh_selftest": 12}}
     rule = ("one run = (parameter set drawn swarm style, 1..3000 peaks with counts on team*k and team*k+-1, team 1..32 "
             "and strategy for the strict kernel route, a second independent team/strategy for the Python routes); "
